@@ -161,6 +161,62 @@ Proof.
 Qed.
 Print Assumptions C06_any_other_reply_is_authentication_error.
 
+(* ---------------------------------------------------------------- (3b) which procedure runs *)
+
+(* Credentials that are STORED decide: extract_credentials returns exactly them and pair_verify
+   builds the procedure of their type - whatever the (unauthenticated) announcement says.  In
+   particular stored HAP credentials (all four fields, key not the "transient" marker) always
+   get the HAP Pair-Verify against the stored key and identifier. *)
+Theorem C06_stored_credentials_select_procedure :
+  forall c k, auth_type c = Some k ->
+  forall a, extract_credentials (Some c) a = SelCreds c /\ selected_procedure (Some c) a = Some (proc_of k).
+Proof. intros c k H a. split; [exact (extract_stored c a k H)|exact (selected_stored c a k H)]. Qed.
+Print Assumptions C06_stored_credentials_select_procedure.
+
+Theorem C06_stored_hap_credentials_get_hap_verify :
+  forall c, ltpk c <> [] -> ltsk c <> [] -> atv_id c <> [] -> client_id c <> [] -> ltpk c <> transient_marker ->
+  forall a, selected_procedure (Some c) a = Some PHap.
+Proof.
+  intros c H1 H2 H3 H4 H5 a.
+  assert (K: auth_type c = Some KHAP) by (apply auth_type_hap; auto).
+  exact (selected_stored c a KHAP K).
+Qed.
+Print Assumptions C06_stored_hap_credentials_get_hap_verify.
+
+(* An announcement alone never produces credentials that name an identity: only the transient
+   marker or none. *)
+Theorem C06_announcement_selects_no_identity :
+  forall a c, extract_credentials None a = SelCreds c ->
+  (c = TRANSIENT_CREDENTIALS /\ auth_type c = Some KTransient) \/ (c = NO_CREDENTIALS /\ auth_type c = Some KNull).
+Proof. intros a c H. apply extract_announced in H as [-> | ->]; [left|right]; split; reflexivity. Qed.
+Print Assumptions C06_announcement_selects_no_identity.
+
+(* verify_connection(extract_credentials(service), connection) with stored HAP credentials IS the
+   HAP verification of (3), for every announcement and whatever the other procedures do: keys
+   installed => the reply proved the stored identity. *)
+Theorem C06_announcement_cannot_downgrade_stored_identity :
+  forall x25519 hkdf dec enc pk_load sig_ok sign c a other k h f1 pd f3 pd4,
+  auth_type c = Some KHAP ->
+  airplay_glue x25519 hkdf dec enc pk_load sig_ok sign (Some c) a other k h f1 pd f3 pd4
+    = connect x25519 hkdf dec enc pk_load sig_ok sign k AirPlay h c f1 pd f3 pd4 /\
+  (keys (airplay_glue x25519 hkdf dec enc pk_load sig_ok sign (Some c) a other k h f1 pd f3 pd4) = true ->
+   exists t spub encd shared pt it sg,
+     pairing_data k AirPlay pd = inl t /\ get T_PublicKey t = Some spub /\ get T_EncryptedData t = Some encd /\
+     x25519 (v_priv h) spub = Some shared /\
+     dec (hkdf salt_pv info_pv shared) nonce_m2 encd = Some pt /\
+     read_tlv pt = TOk it /\
+     get T_Identifier it = Some (atv_id c) /\
+     get T_Signature it = Some sg /\
+     sig_ok (ltpk c) (spub ++ atv_id c ++ v_pub h) sg = true).
+Proof.
+  intros until pd4. intro K.
+  assert (E: airplay_glue x25519 hkdf dec enc pk_load sig_ok sign (Some c) a other k h f1 pd f3 pd4
+             = connect x25519 hkdf dec enc pk_load sig_ok sign k AirPlay h c f1 pd f3 pd4).
+  { unfold airplay_glue. rewrite (extract_stored c a KHAP K). now rewrite K. }
+  split; [exact E|]. rewrite E. apply C06_trusted_only_if_identity_proved.
+Qed.
+Print Assumptions C06_announcement_cannot_downgrade_stored_identity.
+
 (* Exception mapping, every class: MRP and Companion (error_handler) give AuthenticationError
    except OSError/timeout -> ConnectionFailedError and BackOffError / NoCredentialsError /
    cancellation unchanged; AirPlay (verify_connection) gives AuthenticationError except
